@@ -3,8 +3,9 @@ import contracts.all  # noqa
 import contracts.storage as ST
 import contracts.standins_storage as B
 import contracts.standins_chunk as BC
+import contracts.postoffice as PO
 
-PROVED = [ST.saver_save, ST.saver_close, ST.save_from, ST.read_and_format, ST.read_format_split]
+PROVED = [ST.saver_save, ST.saver_close, ST.save_from, ST.read_and_format, ST.read_format_split, PO.spy_save_chunk, PO.spy_receive, PO.spy_close]
 
 PROPERTY = Property(
     "C03", "proof",
